@@ -503,6 +503,12 @@ func (nak *NotAKnotCubic) Fit(xs, ys []float64) error {
 		a.SetBand(m, m, 1/dxOuter)
 		a.SetBand(m, m-1, -1/dxOuter-1/dxInner)
 		a.SetBand(m, m-2, 1/dxInner)
+	} else {
+		// With a single interior node both conditions coincide; the
+		// interpolant is the parabola through the three points, that
+		// is, the second derivative is constant.
+		a.SetBand(2, 2, 1)
+		a.SetBand(2, 1, -1)
 	}
 	x := mat.NewVecDense(n, nil)
 	err := x.SolveVec(a, b)
